@@ -500,12 +500,16 @@ package message
 
 //@ func parseAndInsertExpression (ad, exprStr) (err)
 //@   props C13 C08
-//@   assigns parseIntCount, parseIntValue, parseIntOK
+//@   assigns parseIntCount, parseIntValue, parseIntOK, adKind[ad], adStr[ad], adInt[ad]
+//@   ensures rejected_leaves_ad_alone: [C08] err != nil ==> adKind[ad] == old(adKind[ad]) && adStr[ad] == old(adStr[ad]) && adInt[ad] == old(adInt[ad])
 //@   ensures rejects_empty: [C13] err == nil ==> len(exprStr) >= 1
 
 //@ func tryInsertLiteral (ad, attr, valueStr) (err)
 //@   props C13 C08
-//@   assigns parseIntCount, parseIntValue, parseIntOK
+//@   assigns parseIntCount, parseIntValue, parseIntOK, adKind[ad], adStr[ad], adInt[ad]
+//@   ensures not_a_literal_leaves_ad_alone: [C08] err != nil ==> adKind[ad] == old(adKind[ad]) && adStr[ad] == old(adStr[ad]) && adInt[ad] == old(adInt[ad])
+//@   ensures one_literal_attribute: [C08] err == nil ==> adKind[ad] == upd(old(adKind[ad]), attr, adKind[ad][attr]) && (adKind[ad][attr] == 1 || adKind[ad][attr] == 2 || adKind[ad][attr] == 3 || adKind[ad][attr] == 4)
+//@   ensures integer_is_the_parsed_value: [C08] err == nil && adKind[ad][attr] == 2 ==> parseIntOK && adInt[ad][attr] == parseIntValue
 //@   callcount [C08] closed_set_of_shortcuts: 5 ClassAd).Set
 //@   assert before call ClassAd).Set #5 string_shortcut_only_for_a_lone_literal: [C08] len(trimmed) >= 2 && trimmed[0] == 34 && trimmed[len(trimmed) - 1] == 34 && !ContainsAny(unquoted, "\\\"")
 //@   assert before call ClassAd).Set #3 integer_shortcut_is_a_full_parse: [C08] parseIntOK && parseIntCount == old(parseIntCount) + 1
